@@ -716,22 +716,25 @@ fn run_one(c: &Case, cov: &mut Cov, viol: &mut Vec<Violation>) {
                 return;
             }
             cov.outcome(&format!("{}/{fam}/FAIL/{what}", c.seam));
-            viol.push(Violation::new(
-                "codec-roundtrip",
-                &format!("codec/{}/{fam}/{kind}/{what}", c.seam),
-                format!("{case}: codec {name}: {desc}"),
-                case,
-            ));
+            // root-cause class where the failure has been analysed, configuration + symptom otherwise
+            let key = if what == "chunk-bytes-limit" && fam.contains("inlinebitpack") {
+                "miniblock/inline-bitpacking-chunk-exceeds-byte-limit".to_string()
+            } else if what == "chunk-bytes-limit" && fam.contains("fsst") {
+                "miniblock/fsst-chunk-exceeds-byte-limit".to_string()
+            } else {
+                format!("codec/unclassified/{}/{fam}/{kind}/{what}", c.seam)
+            };
+            viol.push(Violation::new("codec-roundtrip", &key, format!("{case}: codec {name}: [{what}] {desc}"), case));
         }
         Err(p) => {
             cov.eval(Some(vcore::hash64(case.to_string().as_bytes())));
             cov.outcome(&format!("{}/PANIC", c.seam));
-            viol.push(Violation::new(
-                "codec-roundtrip",
-                &format!("codec/{}/panic/{kind}/{}", c.seam, crate::val::msg_class(&p)),
-                format!("{case}: panic: {p}"),
-                case,
-            ));
+            let key = if c.seam == "block" && p.contains("tail_bit_savings") {
+                "block/out-of-line-bitpacking-without-savings-debug-assert".to_string()
+            } else {
+                format!("codec/unclassified/{}/panic/{kind}/{}", c.seam, crate::val::msg_class(&p))
+            };
+            viol.push(Violation::new("codec-roundtrip", &key, format!("{case}: panic: {p}"), case));
         }
     }
 }
@@ -763,7 +766,7 @@ pub fn run(ctx: &Ctx) -> Outcome {
     for (i, c) in all.into_iter().enumerate() {
         chunks[i % parts].push(c);
     }
-    let deadline = ctx.tier.pick(32.0, 700.0);
+    let deadline = ctx.opts.get("deadline").and_then(|d| d.parse().ok()).unwrap_or(ctx.tier.pick(32.0, 700.0));
     let start = ctx.start;
     let capped = std::sync::atomic::AtomicBool::new(false);
     let res = vcore::par_map(chunks, ctx.workers, |_, slice| {
